@@ -618,6 +618,11 @@ func runHistory(c *vlib.Ctx, t *lmap.TypeDesc, idx int, r *vlib.Rand, dead map[s
 		cfg = lmap.Config{Cap: capChoices[r.Intn(len(capChoices))], LF: lfChoices[r.Intn(len(lfChoices))]}
 	}
 	cfg.Max = maxChoices[r.Intn(len(maxChoices))]
+	if t.Key == lmap.KLinked && r.Chance(1, 3) {
+		// keys of a dynamic type without == (the structure has to use Equals)
+		cfg.UKeys = true
+		c.Count("histories_with_uncomparable_keys", 1)
+	}
 	if t.HasNone && r.Chance(1, 5) {
 		if t.Val == lmap.VFloat32 {
 			cfg.None = float32(-1)
